@@ -32,6 +32,36 @@ theorem C03_custom_iterator_guard (σ : Dict Expr) (t : Expr) (it : String)
     simp only [Bool.or_eq_true, List.contains_iff_mem]; exact h.symm
   rw [if_pos this]; rfl
 
+/-- the placeholder of a closed-form sequence is a BOUND name: substituting the symbols of the surrounding scope leaves it and its
+    occurrences in the formulas alone (the repaired behaviour, F18) -/
+theorem C03_closed_form_placeholder_is_bound (σ : Dict Expr) (s p : Option Expr) (n : String) :
+    (Seq.closedForm s p (.sym n)).substituteSymbols σ =
+      .ok (.closedForm (s.map (Expr.subst (σ.erase n))) (p.map (Expr.subst (σ.erase n))) (.sym n)) := rfl
+
+/-- … so a symbol of the scope that is merely SPELLED like the placeholder has no influence on the substituted sequence: two scopes
+    that differ only in what they bind to that name give the same result -/
+theorem C03_closed_form_ignores_like_named_symbol (σ σ' : Dict Expr) (s p : Option Expr) (n : String)
+    (h : ∀ x, x ≠ n → σ.get? x = σ'.get? x) :
+    (Seq.closedForm s p (.sym n)).substituteSymbols σ = (Seq.closedForm s p (.sym n)).substituteSymbols σ' := by
+  rw [C03_closed_form_placeholder_is_bound, C03_closed_form_placeholder_is_bound]
+  have hl : ∀ e : Expr, Expr.subst (σ.erase n) e = Expr.subst (σ'.erase n) e := by
+    intro e
+    apply subst_congr_lookup
+    intro x
+    rw [Dict.get?_erase_ite, Dict.get?_erase_ite]
+    by_cases hx : x = n
+    · simp [hx]
+    · simp [hx, h x hx]
+  have : ∀ o : Option Expr, o.map (Expr.subst (σ.erase n)) = o.map (Expr.subst (σ'.erase n)) := by
+    intro o; cases o <;> simp [hl]
+  rw [this s, this p]
+
+-- non-vacuity: count 5, sum N*(N+1)/2, scope binding N to 2*K or to 7: the same substituted sequence, formula untouched
+example : (Seq.closedForm (some (.bin .div (.bin .mul (.sym "N") (.bin .add (.sym "N") (.num 1))) (.num 2))) none (.sym "N")).substituteSymbols
+      [("N", .bin .mul (.num 2) (.sym "K"))] =
+    (Seq.closedForm (some (.bin .div (.bin .mul (.sym "N") (.bin .add (.sym "N") (.num 1))) (.num 2))) none (.sym "N")).substituteSymbols [("N", .num 7)] :=
+  C03_closed_form_ignores_like_named_symbol _ _ _ _ "N" (by intro x hx; simp [Dict.get?, Ne.symm hx])
+
 /-- the sequential variant is NOT the simultaneous one: with M ↦ N and N ↦ M (cross links) on `N + 2*M`,
     sequential substitution yields `N + 2*N`-like capture.  Kernel-checked counter-example over exact rationals. -/
 theorem C03_sequential_is_wrong :
